@@ -490,9 +490,28 @@ func C14(c *core.Ctx) {
 		ok := feed != nil
 		var resets []ssa.Instruction
 		// (the Reset may sit in a small helper that hands out the hasher: acquireHasher())
+		// … but not in a helper that only runs deferred (a release helper resets AFTER the
+		// components were fed: that is the hand-back protocol, judged by putsClean)
+		deferredOnly := map[*ssa.Function]bool{}
+		core.Instrs(fn, func(in ssa.Instruction) {
+			if d, isD := in.(*ssa.Defer); isD {
+				if cal := d.Call.StaticCallee(); cal != nil {
+					deferredOnly[cal] = true
+				}
+			}
+		})
+		core.Instrs(fn, func(in ssa.Instruction) {
+			if cl, isC := in.(*ssa.Call); isC {
+				if cal := cl.Call.StaticCallee(); cal != nil {
+					delete(deferredOnly, cal)
+				}
+			}
+		})
 		core.InstrsDeep(fn, func(in ssa.Instruction) {
-			if ci, isC := in.(ssa.CallInstruction); isC && ci.Common().IsInvoke() && ci.Common().Method.Name() == "Reset" {
-				resets = append(resets, in)
+			if ci, isC := in.(ssa.CallInstruction); isC && ci.Common().IsInvoke() && ci.Common().Method.Name() == "Reset" && !deferredOnly[in.Parent()] {
+				if _, isDefer := in.(*ssa.Defer); !isDefer {
+					resets = append(resets, in)
+				}
 			}
 		})
 		if ok {
